@@ -545,6 +545,34 @@ fn one_history(ctx: &WorkerCtx, rep: &mut WorkerReport, case_seed: u64, blocks: 
             drop_driver(d);
             return;
         }
+        // contracts created below the outermost frame of a call (children of a Tool, the bridge's token
+        // contracts) were not created by an inscription of their own: the contract -> inscription
+        // index must not attribute them to the call that happened to create them (a receipt names a
+        // contract only for a top-level deployment, and the index mirrors the receipts)
+        let mut inner: Vec<String> = w.tools.iter().zip(w.tool_iids.iter()).filter(|(_, i)| i.as_str() == "none").map(|(t, _)| t.clone()).collect();
+        for t in &w.tickers {
+            let r = d.inst.call("eth_call", json!([{"to": hist::CONTROLLER, "data": hist::hx(&hist::abi_bytes_then_words("getTickerAddress(bytes)", t.to_lowercase().as_bytes(), &[]))}]));
+            if let Some(x) = r.ok().and_then(|v| v.as_str()) {
+                if x.len() >= 42 && x[x.len() - 40..] != *"0000000000000000000000000000000000000000" {
+                    inner.push(format!("0x{}", &x[x.len() - 40..]));
+                }
+            }
+        }
+        for a in inner {
+            // children created by a self-destructing / re-creating pattern may coincide with top-level addresses: only judge addresses no receipt names
+            let named = d.chain_resp.iter().flatten().flat_map(|r| hist::receipts_in(r)).any(|rc| rc["contractAddress"].as_str().map(|x| x.eq_ignore_ascii_case(&a)).unwrap_or(false));
+            if named {
+                continue;
+            }
+            let m = d.inst.call("brc20_getInscriptionIdByContractAddress", json!([a]));
+            c.rep.evaluations += 1;
+            if !matches!(m.ok(), Some(Value::Null)) {
+                c.fail(&mut d, "inner-contract-in-inscription-index", format!("contract {} was created inside a call (no receipt names it) but brc20_getInscriptionIdByContractAddress attributes it to {}", a, m.short()), json!({}));
+                drop_driver(d);
+                return;
+            }
+            c.rep.nontrivial(format!("inner-contract-not-indexed:{}", if a.len() > 0 { "seen" } else { "" }));
+        }
     }
     if rep.samples.len() < 2 {
         let last: BTreeMap<String, Value> = d.chain.last().map(|ops| ops.iter().enumerate().map(|(i, o)| (format!("{}", i), json!(o.kind()))).collect()).unwrap_or_default();
